@@ -1,8 +1,9 @@
 (* W-level model: the write-ahead-log discipline of src/log.rs + src/db.rs as an abstract protocol.
-   Records are lists of ABSOLUTE cell writes (a cell = one table location: an index chunk entry, a
-   value slot, a table header). Tables have a page-cache image C and a durable image D; [dirty l]
-   over-approximates the cells whose durable content is unknown after a power loss. The log keeps
-   the records [t, length recs); the first [s] of them are durable (fdatasync). Definitions only. *)
+   Records are lists of ABSOLUTE cell writes (a cell = one table location: an index chunk, a value
+   slot, a table header; cell / 2^40 names the file it lives in). Tables have a page-cache image C
+   and a durable image D; [dirtyl] lists the cells stored to since the last sync of their file: their
+   durable content is unknown after a power loss. The log keeps the records [t, length recs); the
+   first [s] of them are durable (fdatasync). Definitions only. *)
 From Coq Require Import Arith NArith List Bool.
 Import ListNotations.
 Open Scope N_scope.
@@ -22,27 +23,39 @@ Record wst := {
   s : nat;              (* records [0,s) are durable in the log (fdatasync)            *)
   st : nat;             (* records [0,st) fully stored into C; record st in progress    *)
   k : nat;              (* number of writes of record st already stored                 *)
-  fl : nat;             (* value of st at the last flush of the tables                  *)
   t : nat;              (* records [0,t) have been truncated away from the log          *)
-  C : base; D : base; dirty : N -> bool
+  C : base; D : base;
+  dirtyl : list N       (* cells stored to since the last sync that covered them        *)
 }.
+Definition dirty (w : wst) (l : N) : bool := existsb (N.eqb l) (dirtyl w).
+
+(* the writes of the record in progress that are already stored *)
+Definition cur (w : wst) : list (N * cell) := match nth_error (recs w) (st w) with Some r => firstn (k w) (ws r) | None => [] end.
+
+(* D2 in its weakest sound form: after dropping the records below n from the log, every cell whose
+   durable content is unknown is still (re)written by a record the log keeps, or by the record in
+   progress. "Flush all tables, then truncate what was stored before the flush" is the special case
+   of an empty dirty list. *)
+Definition trunc_ok (w : wst) (n : nat) : bool :=
+  forallb (fun l => wrs (sub (recs w) n (st w)) l || wr (cur w) l) (dirtyl w).
 
 Inductive step : wst -> wst -> Prop :=
-| Append w r : step w {| recs := recs w ++ [r]; s := s w; st := st w; k := k w; fl := fl w; t := t w; C := C w; D := D w; dirty := dirty w |}
-| SyncLog w : step w {| recs := recs w; s := length (recs w); st := st w; k := k w; fl := fl w; t := t w; C := C w; D := D w; dirty := dirty w |}
+| Append w r : step w {| recs := recs w ++ [r]; s := s w; st := st w; k := k w; t := t w; C := C w; D := D w; dirtyl := dirtyl w |}
+| SyncLog w : step w {| recs := recs w; s := length (recs w); st := st w; k := k w; t := t w; C := C w; D := D w; dirtyl := dirtyl w |}
 | Store w r l c : (st w < s w)%nat ->                                   (* D1: only synced records are applied *)
     nth_error (recs w) (st w) = Some r -> nth_error (ws r) (k w) = Some (l, c) ->
-    step w {| recs := recs w; s := s w; st := st w; k := S (k w); fl := fl w; t := t w;
-              C := upd (C w) l c; D := D w; dirty := fun x => (x =? l) || dirty w x |}
+    step w {| recs := recs w; s := s w; st := st w; k := S (k w); t := t w;
+              C := upd (C w) l c; D := D w; dirtyl := l :: dirtyl w |}
 | Finish w r : (st w < s w)%nat -> nth_error (recs w) (st w) = Some r -> k w = length (ws r) ->
-    step w {| recs := recs w; s := s w; st := S (st w); k := O; fl := fl w; t := t w; C := C w; D := D w; dirty := dirty w |}
-| Flush w :                                                              (* msync may run while a record is half applied (cleanup worker vs commit worker) *)
-    step w {| recs := recs w; s := s w; st := st w; k := k w; fl := st w; t := t w; C := C w; D := C w; dirty := fun _ => false |}
-| Truncate w n : (t w <= n <= fl w)%nat ->                               (* D2: only logs whose records were stored before the last flush, oldest first *)
-    step w {| recs := recs w; s := s w; st := st w; k := k w; fl := fl w; t := n; C := C w; D := D w; dirty := dirty w |}.
+    step w {| recs := recs w; s := s w; st := S (st w); k := O; t := t w; C := C w; D := D w; dirtyl := dirtyl w |}
+| SyncSome w (P : N -> bool) :                                           (* msync of the cells selected by P (one file, or all of them); may run while a record is half applied *)
+    step w {| recs := recs w; s := s w; st := st w; k := k w; t := t w; C := C w;
+              D := fun l => if P l then C w l else D w l; dirtyl := filter (fun l => negb (P l)) (dirtyl w) |}
+| Truncate w n : (t w <= n <= st w)%nat -> trunc_ok w n = true ->        (* D2 *)
+    step w {| recs := recs w; s := s w; st := st w; k := k w; t := n; C := C w; D := D w; dirtyl := dirtyl w |}.
 
 Definition init (T0 : base) : wst :=
-  {| recs := []; s := O; st := O; k := O; fl := O; t := O; C := T0; D := T0; dirty := fun _ => false |}.
+  {| recs := []; s := O; st := O; k := O; t := O; C := T0; D := T0; dirtyl := [] |}.
 
 Inductive reach (T0 : base) : wst -> Prop :=
 | R0 : reach T0 (init T0)
@@ -50,24 +63,26 @@ Inductive reach (T0 : base) : wst -> Prop :=
 
 
 (* ---- executable form of the protocol, used to accept event traces observed on the implementation ---- *)
+Definition file_of (l : N) : N := l / 2 ^ 40.
 Inductive wev :=
 | EAppend (r : record)     (* a complete record written to the log file (page cache) *)
 | ESyncLog                 (* fdatasync of the log *)
 | EStore                   (* the next write of the record being enacted reaches the table's mapping *)
 | EFinish                  (* the record being enacted is done *)
 | EFlush                   (* every table mapping flushed (msync) *)
+| ESyncFile (x : N)        (* the mapping of table file x flushed *)
 | ETruncate (n : nat).     (* log files holding the records below n truncated / deleted *)
 
 Definition wstep (w : wst) (e : wev) : option wst :=
   match e with
-  | EAppend r => Some {| recs := recs w ++ [r]; s := s w; st := st w; k := k w; fl := fl w; t := t w; C := C w; D := D w; dirty := dirty w |}
-  | ESyncLog => Some {| recs := recs w; s := length (recs w); st := st w; k := k w; fl := fl w; t := t w; C := C w; D := D w; dirty := dirty w |}
+  | EAppend r => Some {| recs := recs w ++ [r]; s := s w; st := st w; k := k w; t := t w; C := C w; D := D w; dirtyl := dirtyl w |}
+  | ESyncLog => Some {| recs := recs w; s := length (recs w); st := st w; k := k w; t := t w; C := C w; D := D w; dirtyl := dirtyl w |}
   | EStore =>
       if Nat.ltb (st w) (s w) then
         match nth_error (recs w) (st w) with
         | Some r => match nth_error (ws r) (k w) with
-                    | Some (l, c) => Some {| recs := recs w; s := s w; st := st w; k := S (k w); fl := fl w; t := t w;
-                                             C := upd (C w) l c; D := D w; dirty := fun x => (x =? l) || dirty w x |}
+                    | Some (l, c) => Some {| recs := recs w; s := s w; st := st w; k := S (k w); t := t w;
+                                             C := upd (C w) l c; D := D w; dirtyl := l :: dirtyl w |}
                     | None => None
                     end
         | None => None
@@ -77,15 +92,19 @@ Definition wstep (w : wst) (e : wev) : option wst :=
       if Nat.ltb (st w) (s w) then
         match nth_error (recs w) (st w) with
         | Some r => if Nat.eqb (k w) (length (ws r))
-                    then Some {| recs := recs w; s := s w; st := S (st w); k := O; fl := fl w; t := t w; C := C w; D := D w; dirty := dirty w |}
+                    then Some {| recs := recs w; s := s w; st := S (st w); k := O; t := t w; C := C w; D := D w; dirtyl := dirtyl w |}
                     else None
         | None => None
         end
       else None
-  | EFlush => Some {| recs := recs w; s := s w; st := st w; k := k w; fl := st w; t := t w; C := C w; D := C w; dirty := fun _ => false |}
+  | EFlush => Some {| recs := recs w; s := s w; st := st w; k := k w; t := t w; C := C w;
+                      D := fun l => if (fun _ => true) l then C w l else D w l; dirtyl := filter (fun l => negb ((fun _ => true) l)) (dirtyl w) |}
+  | ESyncFile x => Some {| recs := recs w; s := s w; st := st w; k := k w; t := t w; C := C w;
+                           D := fun l => if file_of l =? x then C w l else D w l;
+                           dirtyl := filter (fun l => negb (file_of l =? x)) (dirtyl w) |}
   | ETruncate n =>
-      if Nat.leb (t w) n && Nat.leb n (fl w)
-      then Some {| recs := recs w; s := s w; st := st w; k := k w; fl := fl w; t := n; C := C w; D := D w; dirty := dirty w |}
+      if Nat.leb (t w) n && Nat.leb n (st w) && trunc_ok w n
+      then Some {| recs := recs w; s := s w; st := st w; k := k w; t := n; C := C w; D := D w; dirtyl := dirtyl w |}
       else None
   end.
 
